@@ -275,7 +275,12 @@ def outsideModel (c : Case) : Bool :=
     (pats.any (fun p => (Regex.parse {} p).isNone) || nonAsciiKey c.get || nonAsciiKey c.post || nonAsciiKey c.hdr)
   -- urlDecode turns ASCII text with a percent sign into arbitrary bytes, which a later case transformation may meet
   let hasTf (n : String) := c.rules.any fun r => r.links.any fun l => l.tfs.any fun t => t.toLower == n
-  let pct (ps : List (Bytes × Bytes)) := ps.any fun p => p.2.contains 0x25
+  -- (decoding again and again, as a chain of several urlDecode would)
+  let udec (v : Bytes) : Bytes := match Driver.Tf.run "urldecode" v with | some r => r.out | none => v
+  let badDec (v : Bytes) : Bool :=
+    let v1 := udec v; let v2 := udec v1; let v3 := udec v2
+    !(v1.all isAscii && v2.all isAscii && v3.all isAscii)
+  let pct (ps : List (Bytes × Bytes)) := ps.any fun p => badDec p.1 || badDec p.2
   let decoded := hasTf "urldecode" && (pct c.get || pct c.post || pct c.hdr)
   (caseTf && (nonAscii c.get || nonAscii c.post || nonAscii c.hdr || decoded)) || rxOut
 
@@ -343,6 +348,7 @@ def concModel (args : List String) : Option String :=
   match args with
   | _ :: _ :: c0 :: _ =>
     (model [c0]).map fun m =>
+      if m == "CONFIGERR" then m else
       let cut := (m.splitOn " ; cb=").head!
       cut ++ " ; cb=- ;; mismatch=0 races=0 panics=0"
   | _ => none
@@ -353,7 +359,7 @@ def tfidModel (args : List String) : Option String :=
   | [a, b] => do
     let ma ← model [a]
     let mb ← model [b]
-    let strip (m : String) := (m.splitOn " ; cb=").head! ++ " ; cb=-"
+    let strip (m : String) := if m == "CONFIGERR" then m else (m.splitOn " ; cb=").head! ++ " ; cb=-"
     pure (strip ma ++ " ||| " ++ strip mb)
   | _ => none
 
